@@ -613,11 +613,17 @@ func (db *DB) MaxLTX() (minTXID, maxTXID ltx.TXID, err error) {
 
 // FileInfo returns the cached file stats for the database file when it was initialized.
 func (db *DB) FileInfo() os.FileInfo {
+	// Written by init() under db.mu (also on a re-initialisation after
+	// Close/Open) while replica clients read it from upload goroutines.
+	db.mu.RLock()
+	defer db.mu.RUnlock()
 	return db.fileInfo
 }
 
 // DirInfo returns the cached file stats for the parent directory of the database file when it was initialized.
 func (db *DB) DirInfo() os.FileInfo {
+	db.mu.RLock()
+	defer db.mu.RUnlock()
 	return db.dirInfo
 }
 
